@@ -14,7 +14,8 @@ func init() {
 		Explanation: "Decided (structural necessary conditions): (1) each of the five transaction-level state advances (INITIALIZED, VALIDATED, COMMITTED, ABORTED, APPLIED) is control dependent on an all-elements flag that is initialised true, cleared only inside one loop over exactly T.Status.Proposals, and every loop-body path that neither clears it nor leaves the function entails 'this proposal is in the target state' (decided over the whole enum domain); " +
 			"(2) a FAILED proposal validation makes the transaction FAILED with that failure, opens Abort and never opens Commit; (3) phases are opened only from the state that precedes them and only by the transaction controller; (4) the dispatchers give Apply > Abort > Commit > Validate > Initialize precedence; " +
 			"(5) the abort path of a proposal performs no Configuration.Store.Update and writes neither Values nor Index; (6) the commit path of a proposal assigns no failure and its state enum has no failure value; (7) every target named by the change gets a proposal id appended on every fall-through path of the creation loop." +
-			" Also: a proposal is marked committed only under the commit cursor (C01.11).",
+			" Also: a proposal is marked committed only under the commit cursor (C01.11)." +
+			" Also: C01.9c.",
 		Declined:    []string{"atomicity of the stores themselves", "crash atomicity across targets beyond the re-entrancy guards (C07)", "what the model plugin is given (C05)"},
 		Assumptions: []string{"enum-typed fields hold one of their declared constants", "equal canonical expressions denote equal values within one reconcile pass"},
 		Run:         runC01,
@@ -45,6 +46,11 @@ func runC01(c *engine.Ctx, tier string) {
 	// values (cursor at the predecessor → moved to this proposal) or an earlier pass did; the cursor is the COMMIT
 	// cursor (it also moves over aborted proposals), not Configuration.Index (seed C01-r42: after a rejected Set
 	// the share of one target is marked committed without being written)
+	// the chain link of a target's share names the proposed cursor (seed C01-r52: linked to the committed cursor a
+	// share whose predecessor is still in flight commits first, and the predecessor is then marked committed unwritten)
+	c.Guard(engine.Guard{ID: "C01.9c", Pkg: pkgProposalCtl, None: true, Rule: "K-own",
+		Sel: engine.Sel{Field: "config/v2.ProposalStatus.PrevIndex", NotRHS: "@CFG.Status.Proposed.Index", Lit: true},
+		Why: "PrevIndex is only ever taken from the proposed cursor"})
 	c.Guard(engine.Guard{ID: "C01.11", Pkg: pkgProposalCtl, Min: 1,
 		Sel:     engine.Sel{Call: stCfgUpdate},
 		Require: "@P.Status.Phases.Commit.State == config/v2.ProposalCommitPhase_COMMITTING && @CFG.Status.Committed.Index == @PREV && #wrote(" + fCommittedIdx + "=@OWN)",
